@@ -356,7 +356,9 @@ def r07_4_composite_pairing(ctx: Ctx) -> RuleResult:
     src = unparse(ffp.node)
     # the pattern returned is indexed by the position of the predicate that accepted the value
     subs = [n for n in own_nodes(ffp.node) if isinstance(n, ast.Subscript) and "patterns" in unparse(n.value)]
-    good = any("format_predicates.index(" in unparse(s.slice) or (isinstance(s.slice, ast.Name) and any(isinstance(l, ast.For) and "enumerate" in unparse(l.iter) and "predicates" in unparse(l.iter) for l in own_nodes(ffp.node))) for s in subs)
+    from ..kit import inline_locals as _inl
+
+    good = any("format_predicates.index(" in unparse(s.slice) or "format_predicates.index(" in unparse(_inl(ffp.node, s.slice)) or (isinstance(s.slice, ast.Name) and any(isinstance(l, ast.For) and "enumerate" in unparse(l.iter) and "predicates" in unparse(l.iter) for l in own_nodes(ffp.node))) for s in subs)
     if good:
         rr.ok({"lookup": unparse(subs[0])[:80]})
     else:
